@@ -265,6 +265,15 @@ def rule_prevdepth(ctx):
         ctx.anchor_missing(rid, "jxl_modular::ma::FlatMaTree::new")
         return
     fam = [g for g in md.fn_list if g.kind != "Promoted" and (g.path == root.path or g.path.startswith(root.path + "::{closure"))]
+    # private helpers the constructor calls directly (the depth formula may live in one)
+    known = {g.path for g in fam}
+    for g in list(fam):
+        for _, t in g.calls():
+            c = callee(t)
+            h = md.fn(c.get("res") or c["fn"]) if c else None
+            if h is not None and h.path not in known and h.kind != "Promoted" and len(h.blocks) < 60 and h.path.startswith("jxl_modular::ma::"):
+                known.add(h.path)
+                fam.append(h)
     ctx.seen(root)
 
     def pure_call(t, e, val_of):
@@ -312,6 +321,9 @@ def rule_prevdepth(ctx):
                             return False
                         pure_call(tt, e, val_of)
                     if tt[0] == "ret":
+                        # in a helper the depth is what it returns
+                        if g.path != root.path and "{closure" not in g.path and e.get(0) is not None:
+                            got.append(e[0])
                         return False
 
                 pv = lambda p, x=x: x if (p[0] == opt and any(isinstance(q, list) and q[0] == "as" and q[1] == "Some" for q in p[1:])) else None
